@@ -623,6 +623,12 @@ func (p *packerV4) pack(options ...*bgp.MarshallingOption) []*bgp.BGPMessage {
 
 	loop := func(attrsLen int, paths []*Path, cb func([]bgp.PathNLRI)) {
 		max := maxNLRIs(attrsLen)
+		if max < 1 {
+			// the worst-case NLRI does not fit next to these attributes:
+			// emit one route per message, as packerMP does, and let
+			// Serialize accept it or reject it (the sender logs that)
+			max = 1
+		}
 		var nlris []bgp.PathNLRI
 		for {
 			nlris, paths = split(max, paths)
